@@ -12,6 +12,12 @@ CHECKS = {
     "C02": {"parts": [P("quorum-intersection", "./c02", "^TestC02$")]},
     "C03": {"parts": [P("instance-ring", "./c03", "^TestC03Instances$"), P("partition-ring", "./c03", "^TestC03Partitions$")]},
     "C05": {"parts": [P("merge-bfs", "./c05", "^TestC05$")]},
+    "C10": {"parts": [P("dobatch", "./c10", "^TestC10$", shards={"quick": 16, "thorough": 16}, budget={"quick": 200, "thorough": 1200}, gomaxprocs=1,
+                      overlay=[{"file": "ring/batch.go", "rewrite": ['"sync"', '"go.uber.org/atomic"']}])]},
+    "C17": {"parts": [P("single-service", "./c17", "^TestC17Single$", shards={"quick": 16, "thorough": 16}, budget={"quick": 200, "thorough": 1200}, gomaxprocs=1,
+                      overlay=[{"file": "services/basic_service.go", "rewrite": ['"sync"', '"go.uber.org/atomic"']},
+                               {"file": "services/manager.go", "rewrite": ['"sync"', '"go.uber.org/atomic"']},
+                               {"file": "services/failure_watcher.go", "rewrite": ['"sync"']}])]},
     "C14": {"parts": [P("instance-ranges", "./c14", "^TestC14Instances$"), P("partition-ranges", "./c14", "^TestC14Partitions$")]},
     "C16": {"parts": [P("random-generator", "./c16", "^TestC16Random$"), P("spread-minimizing", "./c16", "^TestC16SpreadMinimizing$")]},
     "C20": {"parts": [P("validation", "./c20", "^TestC20Validation$"), P("propagation", "./c20", "^TestC20Propagation$")]},
